@@ -525,3 +525,8 @@ MUTATIONS += [
     dict(id="C07-chunk-skipped-although-new", prop="C07", file=FAF, old="            if !self.index.has_data(&DataId::from(id)) {", new="            if self.index.has_data(&DataId::from(id)) {"),
     dict(id="C07-chunk-size-off", prop="C07", file=FAF, old="            let size = chunk.len() as u64;", new="            let size = chunk.len() as u64 + 1;"),
 ]
+
+MUTATIONS += [
+    dict(id="C02-plan-new-duplicate-kept", prop="C02", file=PR, old="                        let no_duplicate = processed_packs.insert(p.id);\n                        modified |= !no_duplicate;\n                        no_duplicate", new="                        let no_duplicate = processed_packs.insert(p.id);\n                        modified |= !no_duplicate;\n                        true"),
+    dict(id="C02-plan-new-marked-live-kept-unmodified", prop="C02", file=PR, old="                    let duplicate = processed_packs.contains(&p.id);\n                    modified |= duplicate;\n                    !duplicate", new="                    let duplicate = processed_packs.contains(&p.id);\n                    !duplicate"),
+]
